@@ -19,6 +19,17 @@ Phases == {"climb", "cruise", "descent"}
 \* descent everything on FL only)
 Tas(ph, i) == (CASE ph = "climb" -> 200 [] ph = "cruise" -> 232 [] ph = "descent" -> 216) + 8 * i
 Rocd(ph, i, j, a) == CASE ph = "climb" -> 40 - 4 * j * a + 4 * i [] ph = "cruise" -> 0 [] ph = "descent" -> -(12 + 4 * i)
+\* A cruise row is a row whose |ROCD| is within the library's tolerance
+\* (PerformanceTable.ZERO_ROCD_TOL = 1e-6), not only exactly zero: cz in
+\* {-1, 0, 1} gives the cruise rows the residual ROCD cz * 4e-7 (unit
+\* ResidualUnit = 1e-7, rendered by the harness), alternating in sign over
+\* the flight levels when cz = 2.
+CruiseResidual(i, cz) == CASE cz = 2 -> (IF i % 2 = 0 THEN 4 ELSE -4) [] OTHER -> 4 * cz
+\* The table is a set of rows; the order in which a file lists them carries no
+\* meaning.  Orders rendered by the harness: "asc" (phase blocks, ascending
+\* FL, ascending mass), "rev" (that list reversed), "mix" (rows dealt
+\* round-robin over the phases, flight levels descending).
+Orders == {"asc", "rev", "mix"}
 Ff(ph, i, j, b) == CASE ph = "climb" -> 8 + 4 * i [] ph = "cruise" -> 4 + 4 * i + 8 * j * b [] ph = "descent" -> 4 + 4 * i
 
 VARIABLES c, o, st
@@ -31,8 +42,10 @@ Done == st = "done"
 (* evaluation on the half lattice: fl2 = 2*(k-1) at node k, odd between      *)
 (* nodes, -1 / 2n-1 outside; m2 likewise over the three masses, 100 = "min", *)
 (* 101 = "max"                                                               *)
-EvalCases == UNION {[fls : {F}, a : {0, 1, 2}, b : {0, 1}, ph : Phases,
-                     fl2 : -1..(2 * Len(F) - 1), m2 : (-1..5) \cup {100, 101}] : F \in FlSets}
+EvalCasesAll == UNION {[fls : {F}, a : {0, 1, 2}, b : {0, 1}, ph : Phases, cz : {-1, 0, 1, 2}, ord : Orders,
+                        fl2 : -1..(2 * Len(F) - 1), m2 : (-1..5) \cup {100, 101}] : F \in FlSets}
+\* all value shapes with the plain layout, all layouts with one value shape
+EvalCases == {x \in EvalCasesAll : (x.cz = 0 /\ x.ord = "asc") \/ (x.a = 1 /\ x.b = 1)}
 FlInside(x) == x.fl2 >= 0 /\ x.fl2 <= 2 * Len(x.fls) - 2
 MassDependent(ph) == ph \in {"climb", "cruise"}
 M2(x) == IF x.m2 = 100 THEN 0 ELSE IF x.m2 = 101 THEN 4 ELSE x.m2
@@ -47,10 +60,11 @@ Avg4(f(_, _), x) ==
       j1 == IF MassDependent(x.ph) THEN Hi(M2(x)) ELSE 1
   IN R(f(i0, j0) + f(i0, j1) + f(i1, j0) + f(i1, j1), 4)
 EvalOut(x) ==
-  IF Refused(x) THEN [refused |-> TRUE, tas |-> I(0), rocd |-> I(0), ff |-> I(0)]
+  IF Refused(x) THEN [refused |-> TRUE, tas |-> I(0), rocd |-> I(0), res |-> I(0), ff |-> I(0)]
   ELSE [refused |-> FALSE,
         tas |-> Avg4(LAMBDA i, j : Tas(x.ph, i), x),
         rocd |-> Avg4(LAMBDA i, j : Rocd(x.ph, i, j, x.a), x),
+        res |-> IF x.ph = "cruise" THEN Avg4(LAMBDA i, j : CruiseResidual(i, x.cz), x) ELSE I(0),
         ff |-> Avg4(LAMBDA i, j : Ff(x.ph, i, j, x.b), x)]
 EvalSpec == Start(EvalCases) /\ [][Step(EvalOut(c))]_vars
 
@@ -59,6 +73,12 @@ NodeExact == (Done /\ ~o.refused /\ IsNode(c)) =>
    /\ o.tas = I(Tas(c.ph, c.fl2 \div 2))
    /\ o.rocd = I(Rocd(c.ph, c.fl2 \div 2, IF MassDependent(c.ph) THEN M2(c) \div 2 ELSE 1, c.a))
    /\ o.ff = I(Ff(c.ph, c.fl2 \div 2, IF MassDependent(c.ph) THEN M2(c) \div 2 ELSE 1, c.b))
+   /\ o.res = (IF c.ph = "cruise" THEN I(CruiseResidual(c.fl2 \div 2, c.cz)) ELSE I(0))
+\* the listing order and the cruise residual of a table do not influence the
+\* values of the other phases
+LayoutIrrelevant == Done => (o.tas = EvalOut([c EXCEPT !.ord = "asc", !.cz = 0]).tas
+                             /\ o.ff = EvalOut([c EXCEPT !.ord = "asc", !.cz = 0]).ff
+                             /\ o.rocd = EvalOut([c EXCEPT !.ord = "asc", !.cz = 0]).rocd)
 NoExtrapolation == Done => (o.refused <=> Refused(c))
 \* bounded by the surrounding table values
 Bounded == (Done /\ ~o.refused) =>
